@@ -105,6 +105,7 @@ def _run_section(sec):
         d['sig'] = info.get('sig', o.name)
         d['replayer'] = info.get('replayer', sec.replayer)
         d['extra'] = info.get('extra')
+        d['soft'] = bool(info.get('soft'))
         if o.status == 'cex':
             try:
                 d['inputs'] = core.model_value(o.model, info.get('inputs', {}))
@@ -280,6 +281,11 @@ class Check:
                     known_hits[sig] = (hit, rep)
                 else:
                     violations.append((s, o, rep))
+            elif st['first'][1].get('soft'):
+                s, o, rep = st['first']
+                n_unk += 1
+                n_cex -= 1
+                inconclusive.append('%s/%s (candidate counterexample from a refuted lemma did not reproduce)' % (s['name'], o['name']))
             else:
                 s, o, rep = st['first']
                 self.harness_errors.append('counterexample for %s/%s (signature %s) did not reproduce on the real code in %d '
